@@ -66,6 +66,7 @@ func (w *World) newEnc(fn *ssa.Function, c *FuncContract) *Enc {
 	if c != nil {
 		e.props = c.Props
 		e.nobounds = c.NoBounds
+		e.forkjoin = c.ForkJoin
 	}
 	return e
 }
